@@ -67,6 +67,12 @@ static Case gen_case() {
     if (chance(30)) c.dK = one_of<int>({1, 2, 3, 8, 128, 129});
     if (chance(30)) c.dV = one_of<int>({1, 2, 100, 128, 401});
   }
+  if (chance(4)) {
+    // the writer starts far into a sparse file: offsets beyond 2^31 and 2^32
+    c.cfg.sparse_off = one_of<unsigned long long>({(1ull << 31) - 100, (1ull << 31) + 5, 3ull << 30, (1ull << 32) + 4096});
+    c.cfg.prefix_len = 0;
+    c.cfg.by_path = false;
+  }
   c.exec_tool = chance(1);
   c.text_mode = chance(25);
   return c;
@@ -183,7 +189,8 @@ static void body(const Case &c, Result &r) {
       r.failf("mtbl_writer_add refused strictly increasing key #%zu %s", i, show(want[i].first).c_str());
       return;
     }
-  bytes pre = c.cfg.prefix_bytes();
+  bytes pre = c.cfg.sparse_off ? bytes() : c.cfg.prefix_bytes();
+  if (c.cfg.sparse_off) r.tag("sparse_offset_ge_2GiB");
   if (!pre.empty()) {
     bytes img = fd_contents(fd);
     if (img.size() < pre.size() || img.compare(0, pre.size(), pre) != 0) {
